@@ -1,9 +1,9 @@
 CONSTANTS Formats = {0, 2, 4, 6, 8, 10, 12, 14} SpaLens = {0, 2, 3, 6} StartCi = {0, 254} PayCi = {0, 9, 255} ForeignLens = {2, 3} Bursts = {2, 16, 240, 255} MaxPk = 3
-  Modes = {"cont", "unit", "pay"} ContFull = FALSE
+  Modes = {"cont", "unit", "pay", "mix"} ContFull = FALSE
   Listen <- ListenQ
   Pays <- PaysQ
 SPECIFICATION GSpec
 VIEW gview
 CONSTRAINT Dump
-PROPERTIES FlagOnlyAfterLoss FlagAfterLoss NothingForeign DeliveredIff DepPassed
+PROPERTIES FlagOnlyAfterLoss FlagAfterLoss NothingForeign DeliveredIff DepPassed MixNeutral
 CHECK_DEADLOCK FALSE
